@@ -667,3 +667,47 @@ func wrongValueClass(want, got value.Value) string {
 	}
 	return "wrong-value"
 }
+
+// standaloneOK: the abstract value a of type t, encoded by the reference and unmarshalled on its own into a fresh
+// *gt, gives what project demands (true also when nothing is demanded).
+func standaloneOK(t *value.Type, a value.Value, gt reflect.Type, proto int) bool {
+	exp, ab := project(t, a, gt)
+	if ab != able || hasDupKeys(t, exp) {
+		return true
+	}
+	enc, null, err := value.EncodeErr(t, a, proto)
+	if err != nil {
+		return true
+	}
+	if null {
+		enc = nil
+	}
+	h := reflect.New(gt)
+	if uerr, pan := safeUnmarshal(toTypeInfo(t, proto), enc, h.Interface()); uerr != nil || pan != nil {
+		return false
+	}
+	got, ok := absOf(t, h.Elem())
+	return ok && value.Equal(normAbs(t, got), normAbs(t, exp))
+}
+
+// omittedFieldAtFault attributes a FAILED Unmarshal of a into gt (the caller saw it fail) to the skipping of UDT
+// fields the target struct does not have: descending through the components that also fail when unmarshalled on
+// their own into the Go type they have inside gt, it arrives at a UDT that goes into a struct lacking one of its
+// fields while each of its components is fine on its own. Such a failure gets one key wherever the UDT is nested,
+// whatever the type of the field that was then decoded from the wrong bytes.
+func omittedFieldAtFault(t *value.Type, a value.Value, gt reflect.Type, proto int) bool {
+	for gt.Kind() == reflect.Ptr {
+		gt = gt.Elem()
+	}
+	kts, kvs := abstractKids(t, a)
+	for i := range kts {
+		kgt := kidTargetType(t, gt, i)
+		if kgt == nil {
+			continue
+		}
+		if !standaloneOK(kts[i], kvs[i], kgt, proto) {
+			return omittedFieldAtFault(kts[i], kvs[i], kgt, proto)
+		}
+	}
+	return a.K == value.KUDT && structOmitsField(t, gt)
+}
